@@ -56,7 +56,8 @@ pub fn run(cx: &mut Ctx) {
             break;
         }
         cx.begin_case(i);
-        if i % 40 == 13 {
+        // (a big program costs as much as hundreds of ordinary ones)
+        if i % (if cx.thorough { 400 } else { 40 }) == 13 {
             let mut rng = cx.rng(&[i, 14]);
             match many_sites_program(cx, &mut rng) {
                 Ok(p) => {
